@@ -81,7 +81,10 @@ def dhtv_cfg(rng, F, shipped_ok=True):
         shift = int(rng.integers(1, width // 3 + 1))
         cfg = dict(stft_size=stft, segment_start=start, segment_width=width, segment_shift=shift,
                    main_iterations=20, sub_iterations=2)
-        plan = DHTVPermutationAlignment(**cfg).alignment_plan
+        # the documented plan construction (not the library's own alignment_plan: the configuration domain must
+        # not depend on the code under test)
+        from .pyref import ref_plan
+        plan = ref_plan(F, start, width, shift, 20, 2)
         if plan_in_domain(plan, F):
             return cfg, 'custom'
     raise RuntimeError('no DHTV plan inside the domain found')
